@@ -50,7 +50,7 @@ ClauseOcc(e) ==
        ELSE IF IsUncertain(o, t) THEN
             (IF {<<p[1], p[2], p[3]>> : p \in Range(e.obs)} # Obligations(SrcState(o, t)) THEN "driver/obligations"
              ELSE IF \E p \in Range(e.obs) : p[4] # 1 THEN "C04.Encloses" ELSE "")
-       ELSE IF SameRegion(r, Occ(o, t)) THEN ""
+       ELSE IF \E x \in AdmOccs(o, t) : SameRegion(r, x) THEN ""                      \* any of the stored occupancies covering t
        ELSE WrongRegionClause(o, t, r)
 
 ClauseState(e) ==
@@ -64,10 +64,17 @@ ClauseScenario(e) ==
     IF e.res.k = "exc" THEN "C04.Total/" \o e.op
     ELSE LET ES == EffS(e) IN
          CASE e.op = "occupancies_at_time_step" ->
-                (LET want == {p[2] : p \in OccAt(ES, e.t, e.role)}  got == e.res.occs
-                 IN IF /\ Len(got) = Cardinality(OccAt(ES, e.t, e.role))
-                       /\ \A i \in DOMAIN got : \E x \in want : SameRegion(got[i], x)
-                       /\ \A x \in want : \E i \in DOMAIN got : SameRegion(got[i], x)
+                (LET P == {p \in Range(ES) : RoleOK(p, e.role) /\ AdmOccs(p, e.t) # {NoneV}}    \* obstacles that have an occupancy at t
+                     got == e.res.occs
+                     perOK ==      \* where an obstacle has several admissible answers: the very answers the obstacles gave (field per)
+                         "per" \notin DOMAIN e \/
+                         {NormRegion(got[i]) : i \in DOMAIN got} =
+                             {NormRegion(e.per[j].occ) : j \in {k \in DOMAIN e.per : e.per[k].occ.k # "None" /\
+                                                                     \E p \in Range(ES) : p.id = e.per[k].id /\ RoleOK(p, e.role)}}
+                 IN IF /\ Len(got) = Cardinality(P)
+                       /\ \A i \in DOMAIN got : \E p \in P : \E x \in AdmOccs(p, e.t) : SameRegion(got[i], x)
+                       /\ \A p \in P : \E i \in DOMAIN got : \E x \in AdmOccs(p, e.t) : SameRegion(got[i], x)
+                       /\ perOK
                     THEN "" ELSE "C04.Scenario/occupancies_at_time_step")
            [] e.op = "obstacle_states_at_time_step" ->
                 (LET want == StatesAt(ES, e.t)  got == e.res.states
